@@ -18,7 +18,7 @@ class Contract:
                  props=(), eq_on_ref=None, setter=False, joins=None, closure_of=None, free=None, trusted=False, note='',
                  exc_ensures=None, ghost_out=None, fresh_result=False, globals_=None, replay=None, lists=None, yield_acc=None, yield_ensures=None,
                  raises_ensures=None, call_keys=None, frame_assumed=None,
-                 frame_prune=None, frame_dispatch=None, match_facts=None, locals_=None):
+                 frame_prune=None, frame_dispatch=None, match_facts=None, locals_=None, match_layout=None):
         self.qual = qual
         self.kind = kind              # function | method | property | generator
         self.params = dict(params or {})
@@ -45,6 +45,7 @@ class Contract:
         self.fresh_result = fresh_result
         self.globals_ = dict(globals_ or {})
         self.frame_dispatch = dict(frame_dispatch or {})   # method name -> the implementations `self.<name>` can reach (static class of self)
+        self.match_layout = dict(match_layout or {})   # variable holding a pattern -> its top-level capturing groups, in order
         self.locals_ = dict(locals_ or {})       # local name -> kind (for empty list literals)
         self.match_facts = dict(match_facts or {})       # module-level pattern name -> clauses over matched, s, pos, end, g1.. (imported RegLan facts / assumptions)
         self.frame_prune = dict(frame_prune or {})       # callee name -> reason: calls the frame check does not follow
